@@ -503,7 +503,7 @@ def _reg():
     f["Not"] = lambda a, k: np.logical_not(a[0])
     f["Where"] = lambda a, k: np.where(a[0], a[1], a[2])
     f["Cast"] = lambda a, k: a[0].astype({1: np.float32, 7: np.int64, 9: np.bool_}[k["to"]])
-    f["Clip"] = lambda a, k: np.clip(a[0], a[1], a[2])
+    f["Clip"] = lambda a, k: np.clip(a[0], a[1], a[2]) if a[1] is not None else np.minimum(a[0], a[2])
     f["Split"] = lambda a, k: tuple(np.split(a[0], 3))
 
     def red(fn):
@@ -771,8 +771,13 @@ class TraceGen:
             v = self.pick(lambda v: v[1] == "f32" and v[3])
             if v is None:
                 return self.gen_op(items, in_sub)
-            self.emit_op(items, "Clip", [["r", v[0]], ["s", -1.0, "f32"], ["s", 1.0, "f32"]], [("f32", v[2])], in_sub)
-            self.stats["lit_scalar"] += 2
+            if rng.random() < 0.3:  # an absent optional operand (`None`)
+                self.emit_op(items, "Clip", [["r", v[0]], ["n"], ["s", 1.0, "f32"]], [("f32", v[2])], in_sub)
+                self.stats["none_operand"] += 1
+                self.stats["lit_scalar"] += 1
+            else:
+                self.emit_op(items, "Clip", [["r", v[0]], ["s", -1.0, "f32"], ["s", 1.0, "f32"]], [("f32", v[2])], in_sub)
+                self.stats["lit_scalar"] += 2
         elif kind == "split":
             v = self.pick(lambda v: v[2] == (3,) and v[1] != "b")
             if v is None:
@@ -1000,6 +1005,28 @@ class TraceGen:
         return items
 
 
+def refusal_cases(rng, stats):
+    """directed traces for the error branches of the modelled code: the real builder must refuse exactly when the
+    model records an error."""
+    out = []
+    fntab = make_functions(21)
+    fi2 = [i for i, f in enumerate(fntab) if f[0] == "addmul"][0]
+    base = [{"k": "I", "name": "x", "dt": "f32", "shape": [3]},
+            {"k": "O", "op": "Relu", "args": [["r", 0]], "outs": ["a", 1], "nname": None, "attrs": {}}]
+    kinds = {
+        "pop_empty": [{"k": "Q"}],
+        "pop_after_push": [{"k": "P", "name": "m"}, {"k": "Q"}, {"k": "Q"}],
+        "inline_too_many_inputs": [{"k": "L", "f": fi2, "args": [["r", 0], ["r", 1], ["r", 1]], "outs": None, "pfx": "", "attrs": {}}],
+        "inline_outputs_mismatch": [{"k": "L", "f": fi2, "args": [["r", 0], ["r", 1]], "outs": ["only_one"], "pfx": "p", "attrs": {}}],
+        "inline_literal_operand": [{"k": "L", "f": fi2, "args": [["r", 0], ["s", 1.5, "f32"]], "outs": None, "pfx": "", "attrs": {}}],
+    }
+    for kind, tail in kinds.items():
+        c = wrap_case(base + tail, fntab, "none", 21)
+        c["refusal"] = kind
+        out.append(c)
+    return out
+
+
 OPSETS = [17, 18, 21]  # ops whose input/attribute signature changed in between: Reduce{Max,Min,Mean}, Split
 
 
@@ -1071,8 +1098,7 @@ def classify_builder_failure(case, dup_vals, dup_nodes) -> str | None:
     # (D20a — the same automatic name in two different graphs — is fixed in /repo e9794aa: such a
     #  duplicate is a violation again)
     # (D20c — pass-through inline renaming — is fixed in /repo e7b46e0: a violation again)
-    if underscore_digit_callee(case):
-        return "D20f"
+    # (D20f — `{op}_{count}_{i}` vs `{op_1}_{count}` — is fixed in /repo 5c71050: a violation again)
     return None
 
 
@@ -1122,12 +1148,25 @@ def history_of(case_js, prior, budget=8):
 
     if fails([]):
         return True, []
-    cands = sorted(prior, key=lambda h: (h.get("opset") == case_js.get("opset"), -prior.index(h)))
+    def ops_of(items, acc):
+        for it in items:
+            if it["k"] == "O":
+                acc.add(it["op"])
+            elif it["k"] == "S":
+                ops_of(it["body"], acc)
+        return acc
+
+    mine = ops_of(case_js["trace"], set())
+    idx = {id(h): i for i, h in enumerate(prior)}
+    # most promising first: another opset and a shared operator type, nearest first
+    cands = sorted(prior, key=lambda h: (h.get("opset") == case_js.get("opset"),
+                                         not (ops_of(h["trace"], set()) & mine), -idx[id(h)]))
     for h in cands[:budget]:
         if fails([h]):
             return False, [h]
-    if fails(prior[-20:]):
-        return False, prior[-20:]
+    for tail in (prior[-20:], prior):
+        if fails(tail):
+            return False, core.shrink_list(tail, fails, max_steps=14)
     return False, None
 
 
@@ -1142,9 +1181,16 @@ def check_builder_cases(run, drv, cases, stats, rng, do_ort=True):
         ex, err = run_real(c)
         if err is not None:
             stats["builder_real_error"] += 1
-            if mline is None or not mline.endswith("## ERR -"):
+            if c.get("refusal"):
+                stats["refusal_" + c["refusal"]] += 1
+            if mline is not None and not mline.endswith("## ERR -"):
                 continue  # both refuse
-            problems.append((c, "tie", f"real builder raised {err}; model built a graph"))
+            if c.get("refusal"):
+                problems.append((c, "tie", f"real builder raised {err}; model built a graph"))
+            else:
+                # generated traces are valid programs (the model builds them, the NumPy replay runs them): a
+                # builder that raises on one does not produce "a valid model computing the trace"
+                problems.append((c, "property", f"the builder raised on a valid trace: {err}", {}, {}))
             continue
         real = ex.show()
         if mline is not None and real != mline:
@@ -1226,7 +1272,7 @@ def witness_cases(fntab):
          "rets": [4], "declared": [""]},
         {"k": "O", "op": "If", "args": [["r", 1]], "outs": ["a", 1], "nname": None, "graphs": [0, 1],
          "gattr": ["then_branch", "else_branch"], "attrs": {}},
-        {"k": "X", "h": 5, "name": None}, {"k": "X", "h": 2, "name": None},
+        {"k": "X", "h": 5, "name": None, "dt": "f32", "shape": [3]}, {"k": "X", "h": 2, "name": None, "dt": "f32", "shape": [3]},
     ]
     out["D20a"] = wrap_case(t, fntab, "auto")
     # D20c: inlining a pass-through function renames the caller's value; with an explicit output "x" → duplicate
@@ -1236,7 +1282,7 @@ def witness_cases(fntab):
         {"k": "O", "op": "Relu", "args": [["r", 0]], "outs": ["e", ["x"]], "nname": None, "attrs": {}},
         {"k": "L", "f": fi, "args": [["r", 0]], "outs": None, "pfx": "", "attrs": {}},
         {"k": "O", "op": "Add", "args": [["r", 3], ["r", 2]], "outs": ["a", 1], "nname": None, "attrs": {}},
-        {"k": "X", "h": 4, "name": None},
+        {"k": "X", "h": 4, "name": None, "dt": "f32", "shape": [3]},
     ]
     out["D20c"] = wrap_case(t, tab2, "none")
     # D20f: `f` (4 outputs, node 1) yields v_f_1_3; `f_1` (1 output, node 3) yields v_f_1_3
@@ -1248,7 +1294,7 @@ def witness_cases(fntab):
         {"k": "O", "op": "Add", "args": [["r", 3], ["r", 4]], "outs": ["a", 1], "nname": None, "attrs": {}},
         {"k": "C", "f": b, "args": [["r", 7]], "outs": None, "attrs": {}},
         {"k": "O", "op": "Add", "args": [["r", 8], ["r", 6]], "outs": ["a", 1], "nname": None, "attrs": {}},
-        {"k": "X", "h": 9, "name": None},
+        {"k": "X", "h": 9, "name": None, "dt": "f32", "shape": [3]},
     ]
     out["D20f"] = wrap_case(t, tab3, "none")
     return out
@@ -1858,9 +1904,9 @@ def main(run: core.Run) -> None:
 
     all_problems = []
     # ---- builder stream
-    n_none = run.size(220, 2500) * scale
-    n_expl = run.size(110, 1200) * scale
-    n_auto = run.size(110, 1200) * scale
+    n_none = run.size(220, 2000) * scale
+    n_expl = run.size(110, 1000) * scale
+    n_auto = run.size(110, 1000) * scale
     plan = [("none", n_none), ("explicit", n_expl), ("auto", n_auto)]
     distinct = set()
     for mode, n in plan:
@@ -1873,6 +1919,7 @@ def main(run: core.Run) -> None:
             all_problems += check_builder_cases(run, drv, cases[k:k + 100], stats, rng)
     for c in list(distinct)[:3]:
         run.sample(c[:600])
+    all_problems += check_builder_cases(run, drv, refusal_cases(rng, stats), stats, rng)
 
     # ---- nn stream
     n_nn_plain = run.size(500, 6000) * scale
@@ -1884,7 +1931,7 @@ def main(run: core.Run) -> None:
             prog = g.program()
             progs.append({"prog": prog, "explicit": explicit, "diverging": g.diverging})
             distinct.add(" ".join(prog))
-    for _ in range(run.size(200, 2000) * scale):
+    for _ in range(run.size(120, 1000) * scale):
         g = NNGen(rng, False, stats, ctl=True)
         prog = g.program()
         progs.append({"prog": prog, "explicit": False, "diverging": False, "ctl": True})
@@ -1983,17 +2030,18 @@ def main(run: core.Run) -> None:
         )
 
     run.coverage.update(
-        evaluations=stats["builder_cases"] + stats["nn_cases"],
+        evaluations=stats["builder_cases"] + stats["nn_cases"] + stats["part_cases"],
         distinct_nontrivial=len(distinct),
-        rule="distinct builder traces (≥3 operator calls beside the inputs) and distinct module-construction programs; "
+        rule="distinct builder traces (≥3 operator calls beside the inputs) and distinct module-construction programs "
+        "(the 1500 argument-partition cases are counted in evaluations only); "
         "each is executed on the real GraphBuilder / nn classes and on the Lean model, and judged by the oracles",
-        traces_validated_against_impl=stats["builder_cases"] + stats["nn_cases"],
+        traces_validated_against_impl=stats["builder_cases"] + stats["nn_cases"] + stats["part_cases"],
         distribution={k: v for k, v in sorted(stats.items())},
         exhaustive=False,
     )
     if stats["builder_cases"] and stats["builder_real_error"] > 0.3 * stats["builder_cases"]:
         raise core.Infra("generator degenerated: >30% of traces refused by the builder")
-    for need in ("If", "Loop", "inline", "call", "two_overloads_in_trace", "call_overloaded_name", "inline_passthrough", "default_attr_omitted", "plain_attr", "nested_list_after_naming", "nn_param_in_depth2_subgraph", "part_ok", "part_extra-kwargs", "part_missing", "part_too-many", "reduce_axes_attr", "default_attr_omitted_s_leaky0", "default_attr_omitted_s_softmax0", "lit_list", "multi_output", "push", "append_after_naming", "slice", "kind_seq", "kind_list"):
+    for need in ("If", "Loop", "inline", "call", "two_overloads_in_trace", "call_overloaded_name", "inline_passthrough", "default_attr_omitted", "plain_attr", "nested_list_after_naming", "nn_param_in_depth2_subgraph", "none_operand", "refusal_pop_empty", "refusal_inline_too_many_inputs", "refusal_inline_outputs_mismatch", "refusal_inline_literal_operand", "part_ok", "part_extra-kwargs", "part_missing", "part_too-many", "reduce_axes_attr", "default_attr_omitted_s_leaky0", "default_attr_omitted_s_softmax0", "lit_list", "multi_output", "push", "append_after_naming", "slice", "kind_seq", "kind_list"):
         if not stats[need]:
             raise core.Infra(f"generator never produced construct {need}")
 
